@@ -227,3 +227,32 @@ func pendingFallbackRule(c *Ctx, rule string) {
 	}
 	c.Check(hit == nil, rule, inst, site, "after 'key not found' in the pending keyspace every exit passes a finalized-keyspace lookup", "GetNode can return after the pending lookup reported 'key not found' without consulting the finalized keyspace: nodes a pending root inherited from finalized versions read as missing")
 }
+
+// writeLogModeRule (seed C02r5/15; run under C02 and C03): a tree opened WithoutWriteLog keeps no pending write log —
+// Insert does not record into it, so nobody may consult it either. In the three siblings that touch the pending log
+// (Insert, Get, RemoveExisting) every look-up or update of it lies on the `!t.withoutWriteLog` side (an unguarded
+// "already removed locally" test made Remove, Insert, Remove of one key in one batch leave the key in the tree).
+func writeLogModeRule(c *Ctx, rule string) {
+	for _, name := range []string{"storage/mkvs.(*tree).Insert", "storage/mkvs.(*tree).Get", "storage/mkvs.(*tree).RemoveExisting"} {
+		fn := c.needFn(rule, name)
+		if fn == nil {
+			continue
+		}
+		ev := Ev{Name: "pending write log consulted or updated", Fn: fn}
+		for _, b := range blocksIP(fn) {
+			for _, in := range b.Instrs {
+				switch x := in.(type) {
+				case *ssa.Lookup:
+					if strings.HasSuffix(vstr(x.X), "param:t.pendingWriteLog") {
+						ev.Ins = append(ev.Ins, in)
+					}
+				case *ssa.MapUpdate:
+					if strings.HasSuffix(vstr(x.Map), "param:t.pendingWriteLog") {
+						ev.Ins = append(ev.Ins, in)
+					}
+				}
+			}
+		}
+		c.DominatedByCond(rule, fn, "!t.withoutWriteLog", `^!\*param:t\.withoutWriteLog$`, ev, "without a write log the pending log is not maintained by Insert, so a removal recorded in it would be stale")
+	}
+}
